@@ -132,14 +132,13 @@ func (nd *node) dirNames() []string {
 	return names
 }
 
-// remove deletes the content of a node.
+// remove drops one name of a node.
+// The data is kept : files still open on the node go on reading and writing it,
+// and it is released with the node once nothing refers to it any more.
 func (nd *node) remove() {
 	nd.children = nil
 
 	nd.nlink--
-	if nd.nlink == 0 {
-		nd.data = nil
-	}
 }
 
 // setMode sets the permissions of the file node.
